@@ -48,6 +48,20 @@ Definition run_msm (e : Z) (a : list Z) : option (list Z) :=
               ++ eZs st
               ++ eZmat (map (fun x => map (fun y => Z.of_nat (Label_C lag ts x y)) st) st))
     | None => None end
+  else if e =? 102 then
+    (* same answer layout, but the counts are those of the code-shaped fold (count_matrix), not of the
+       nth-based specification form (quadratic in the trajectory length): for very long trajectories;
+       count_matrix_spec_thm (C01) proves the two equal *)
+    match dpair dnested dnat a with
+    | Some ((ts, lag), _) =>
+        let st := unique ts in
+        Some (eres (fun p => eQmat (fst p) ++ eZs (snd p)) (estimate_markov_model ts lag)
+              ++ eZs st
+              ++ match mk ts with
+                 | Ok s => eZmat (count_matrix (nstates s) lag (st_idx s))
+                 | Err _ => eZmat []
+                 end)
+    | None => None end
   else None.
 
 Definition run_coring (e : Z) (a : list Z) : option (list Z) :=
